@@ -8,7 +8,7 @@ CBC = 'rscel/src/types/cel_byte_code.rs'
 BC = 'rscel/src/interp/types/bytecode.rs'
 
 HEADER = r'''
-use std::ops::{Add, Div, Mul, Neg, Not, Rem, Sub};
+use std::ops::{Add, Div, Mul, Neg, Not, Rem, Sub, Index};
 use std::collections::HashMap;
 use std::cmp::Ordering;
 use std::iter::zip;
